@@ -236,7 +236,24 @@ func zzHandleIBTPStep(nStatus int, onlyRequests bool) {
 				s := ic.services["chB:s2"]
 				zz.Assert("C16.dst-gate", s != nil && (s.Status == governance.GovernanceAvailable || s.Status == governance.GovernanceFreezing) && len(s.Permission) == 0)
 			}
-		} else if dk == 0 {
+		} else {
+			// accepted as begin-failure: it consumed its index, so its destination still has to learn of
+			// it (it is listed in the destination's delivery set) and the source is told to roll back
+			want := "chB"
+			if self {
+				want = "chA"
+			}
+			if dk == 1 {
+				want = zzHubID
+			}
+			if dk == 2 {
+				want = DEFAULT_UNION_PIER_ID
+			}
+			_, hasDst := evs[0][want]
+			_, hasSrc := evs[0]["chA"]
+			zz.Assert("C02.begin-failure-listed-for-dst-and-src", hasDst && hasSrc)
+		}
+		if rec.Status != pb.TransactionStatus_BEGIN && dk == 0 {
 			// begin_failure: the local destination really was unusable
 			s := ic.services["chB:s2"]
 			zz.Assert("C16.begin-failure-only-if-dst-unusable", s == nil || !(s.Status == governance.GovernanceAvailable || s.Status == governance.GovernanceFreezing) || len(s.Permission) != 0)
